@@ -1223,16 +1223,24 @@ def translate(target, repo=None):
     return Fn(target, repo).translate()
 
 
+# the self test translates its bodies as a function returning an int, so that a body is rejected for its construct, not its type
+TARGETS["_selftest"] = dict(file="flowpaths/utils/graphutils.py", cls=None, func="max_occurrence",
+                            params=[List(EDGE), List(List(NODE)), Dict(EDGE, NUM)], defaults=["{}"], ret=INT)
 # bodies that MUST be rejected (fail-closed self test; each replaces the body of max_occurrence(seq, paths_in_DAG, edge_lengths={}))
 REJECT = {
-    "while": "i = 0\nwhile i < 3:\n    i += 1\nreturn i",
-    "break": "r = 0\nfor p in paths_in_DAG:\n    break\nreturn r",
+    "while/else": "i = 0\nwhile i < 3:\n    i += 1\nelse:\n    i = 0\nreturn i",
+    "while with a partial condition": "i = 0\nwhile edge_lengths[(0, 0)] > 0:\n    i += 1\nreturn i",
+    "append to an aliased list": "a = []\nb = []\nfor p in paths_in_DAG:\n    b.append(a)\n    a.append(0)\nreturn 0",
+    "append through a second name": "a = []\nb = a\nb.append(0)\na.append(1)\nreturn len(a)",
+    "append while iterating": "a = [0]\nfor x in a:\n    a.append(x)\nreturn 0",
+    "append to a parameter": "seq.append((0, 0))\nreturn 0",
+    "other list method": "a = [0]\na.pop()\nreturn 0",
     "try": "try:\n    r = 0\nexcept Exception:\n    r = 1\nreturn r",
     "bare return": "return",
     "chained assignment": "a = b = 0\nreturn a",
     "tuple assignment": "a, b = 0, 1\nreturn a",
     "dict of lists index": "r = 0\nfor p in paths_in_DAG:\n    r = paths_in_DAG[0][0]\nreturn 0",
-    "slice": "r = seq[1:]\nreturn 0",
+    "slice with a step": "r = seq[::2]\nreturn 0",
     "sum()": "return sum(edge_lengths.get(e, 1) for e in seq)",
     "any()": "r = 0\nif any(e in seq for e in seq):\n    r = 1\nreturn r",
     "comprehension with two generators": "s = [e for e in seq for f in seq]\nreturn 0",
@@ -1249,7 +1257,7 @@ REJECT = {
     "float constant": "r = 0.5\nreturn r",
     "float(inf)": "r = float(\"inf\")\nreturn 0",
     "truthiness": "r = 0\nif seq:\n    r = 1\nreturn r",
-    "ternary": "r = 1 if len(seq) > 0 else 0\nreturn r",
+    "partial operation in a conditional expression": "r = edge_lengths[(0, 0)] if len(seq) > 0 else 0\nreturn 0",
     "chained comparison": "r = 0\nif 0 < len(seq) < 3:\n    r = 1\nreturn r",
     "unknown call": "r = abs(0)\nreturn r",
     "method call": "seq.append((0, 0))\nreturn 0",
@@ -1364,7 +1372,7 @@ def selftest():
             src = "def max_occurrence(seq, paths_in_DAG, edge_lengths: dict = {}) -> int:\n" + "\n".join("    " + l for l in body.splitlines()) + "\n"
             open(os.path.join(d, "flowpaths", "utils", "graphutils.py"), "w").write(src)
             try:
-                translate("max_occurrence", d); bad.append(k)
+                translate("_selftest", d); bad.append(k)
             except Unsupported:
                 pass
     finally:
